@@ -131,6 +131,21 @@ void quiescent_check(Ctx &c, const char *where, bool dump) {
     simalloc::check_all(where);
 }
 
+// A few allocations from one fixed call site of the main thread, an exact check with a dump, and their release. Run once on the first
+// tracer of the run and once more on a second tracer created after the first was destroyed (same thread, same call site, very likely
+// the same address for the tracer's own state): nothing a thread remembers about a tracer may outlive that tracer.
+void mini_round(Ctx &c, const char *where) {
+    std::vector<Block> blk;
+    for (int i = 0; i < 3; i++) {
+        size_t n = 40 + (size_t)i;
+        uint8_t *p = (uint8_t *)aws_mem_acquire(c.tr, n);
+        check_new(c, p, n, "acquire (fixed call site)");
+        blk.push_back(place(c, p, n));
+    }
+    quiescent_check(c, where, true);
+    for (const Block &b : blk) { verify(b, where); c.live.erase((uintptr_t)b.p); aws_mem_release(c.tr, b.p); }
+}
+
 void run_worker(Ctx &c, int idx) {
     Worker &w = c.w[idx];
     for (const sim::Op &op : c.plan->ops) {
@@ -316,6 +331,8 @@ RunInfo run(const sim::Plan &plan) {
         }
         for (int i = 0; i < c.nworkers; i++) { aws_thread_join(&th[i]); aws_thread_clean_up(&th[i]); }
     }
+    const bool second = plan.get("second_lifetime", 0) != 0;
+    if (second) mini_round(c, "fixed call site, first tracer");
     quiescent_check(c, "after all threads finished", true);
     std::vector<Block> rest;
     for (int k = 1; k <= c.nworkers; k++) {
@@ -356,6 +373,17 @@ RunInfo run(const sim::Plan &plan) {
     }
     (void)parent_live_before;
     for (const Block &b : kept) { c.live.erase((uintptr_t)b.p); aws_mem_release(back, b.p); }
+    if (second) {
+        c.tr = aws_mem_tracer_new(c.parent, nullptr, (enum aws_mem_trace_level)requested_level, (size_t)plan.get("frames", 8));
+        if (!c.tr) sim::violation("c17:new", "second aws_mem_tracer_new returned NULL");
+        sim::probe("second_tracer_lifetime_in_the_same_run");
+        if (aws_mem_tracer_bytes(c.tr) != 0 || aws_mem_tracer_count(c.tr) != 0) sim::violation("c17:bytes", "fresh (second) tracer reports outstanding memory");
+        mini_round(c, "fixed call site, second tracer");
+        if (aws_mem_tracer_bytes(c.tr) != 0 || aws_mem_tracer_count(c.tr) != 0) sim::violation("c17:bytes", "second tracer: everything released but it reports outstanding memory");
+        struct aws_allocator *d2 = c.tr;
+        c.tr = nullptr;
+        if (aws_mem_tracer_destroy(d2) != c.parent) sim::violation("c17:destroy", "aws_mem_tracer_destroy (second tracer) did not return the wrapped allocator");
+    }
     aws_logger_set(nullptr);
     aws_logger_clean_up(&c.logger);
     aws_log_channel_clean_up(&c.channel);
@@ -396,6 +424,7 @@ void gen(uint64_t seed, int tier, sim::Plan &p) {
     if (r.chance(0.15)) p.cfg["p_clockfail_boot"] = r.pick(std::vector<int64_t>{1000000, 1000000, 50000, 300000});
     p.cfg["alloc_move_permille"] = r.pick(std::vector<int64_t>{0, 500, 1000});
     if (r.chance(0.25)) p.cfg["keep_live"] = r.range(1, 4);
+    if (r.chance(0.3)) p.cfg["second_lifetime"] = 1;
     static const std::vector<int64_t> sizes = {1, 8, 16, 16, 16, 32, 32, 64, 100, 1000, 5000};
     int maxops = tier ? 100 : 40;
     for (int t = 1; t <= nw; t++) {
